@@ -82,7 +82,9 @@ fn gen_one(seed: u64, run: u64, tier: Tier, bk: Bk, op: &str, rep: u64) -> Plan 
         ("pw-local", _) => 3,
         _ => 2,
     };
+    let base_tok: std::cell::Cell<Option<usize>> = std::cell::Cell::new(None);
     let mut one = |b: &mut Builder, rng: RngSpec| {
+        let rng2 = rng.clone();
         match op {
             "encrypt" | "sign" => {
                 let purpose = if op == "encrypt" { Purp::Local } else { Purp::Public };
@@ -94,6 +96,20 @@ fn gen_one(seed: u64, run: u64, tier: Tier, bk: Bk, op: &str, rep: u64) -> Plan 
                 b.push(Step::Seal { tok, node: 0, key, purpose, claims, footer: FootSpec::Unit, aad: Bytes::empty(), nonce: None, alias, rng, now_ns: now });
                 let vkey = if op == "encrypt" { fk.local } else { fk.public };
                 b.push(Step::Deliver { tok, node: 0, key: vkey, purpose: None, faults: vec![], pk: None, fk: None, validator: VSpec::None, alias: false, now_ns: now, pair_with: None });
+                // token refresh under the same RNG condition: the object that came out of unseal is
+                // sealed again; its nonce must be a draw of the refreshing call, never the old token's
+                let from = base_tok.get().unwrap_or(tok);
+                if base_tok.get().is_none() {
+                    base_tok.set(Some(tok));
+                }
+                let tok2 = b.tok_slot();
+                let rng2 = match &rng2 {
+                    RngSpec::Fail { .. } => rng2.clone(),
+                    _ => b.healthy_rng(),
+                };
+                let new_claims = if b.rng.bool() { Some(ClaimsSpec::Raw { bytes: b.bytes(n) }) } else { None };
+                b.push(Step::Reseal { tok: tok2, from, node: 0, ukey: vkey, skey: key, claims: new_claims, aad: Bytes::empty(), rng: rng2, now_ns: now });
+                b.push(Step::Deliver { tok: tok2, node: 0, key: vkey, purpose: None, faults: vec![], pk: None, fk: None, validator: VSpec::None, alias: false, now_ns: now, pair_with: None });
             }
             "gen-local" => {
                 let slot = b.key_slot();
